@@ -63,6 +63,8 @@ MFld(i, n, t, dep) == [idx |-> i, name |-> n, t |-> t, dep |-> dep]
 InnerDef == [name |-> "Inner", kind |-> "struct", ro |-> FALSE,
              fields |-> << Fld("a", P("int32")), Fld("b", P("string")) >>]
 EmptyDef == [name |-> "Empty", kind |-> "struct", ro |-> FALSE, fields |-> <<>>]
+FxDef    == [name |-> "Fx", kind |-> "struct", ro |-> FALSE,
+             fields |-> << Fld("e", R("Enuint8")), Fld("n", P("int16")), Fld("g", P("guid")) >>]
 RoDef    == [name |-> "RoPt", kind |-> "struct", ro |-> TRUE,
              fields |-> << Fld("x", P("uint16")), Fld("y", P("guid")) >>]
 MsgDef   == [name |-> "Msg", kind |-> "message",
@@ -89,7 +91,10 @@ RecLeaves  == << [t |-> R("Inner"), sup |-> <<InnerDef>>, tag |-> "struct"],
                  [t |-> R("RoPt"),  sup |-> <<RoDef>>,    tag |-> "rostruct"],
                  [t |-> R("Msg"),   sup |-> <<MsgDef>>,   tag |-> "message"],
                  [t |-> R("EmptyMsg"), sup |-> <<EmptyMsgDef>>, tag |-> "emptymessage"],
-                 [t |-> R("Un"),    sup |-> UnDefs,       tag |-> "union"] >>
+                 [t |-> R("Un"),    sup |-> UnDefs,       tag |-> "union"],
+                 \* a struct of fixed-width fields only, one of them an enum narrower than 4 bytes (a decoder may check its
+                 \* arrays with one multiplication)
+                 [t |-> R("Fx"),    sup |-> <<EnumDef("uint8"), FxDef>>, tag |-> "fixedstruct"] >>
 Leaves == PrimLeaves \o EnumLeaves \o RecLeaves
 
 \* shapes: container nestings over a leaf
